@@ -4,6 +4,7 @@
 From Coq Require Import Extraction ExtrOcamlBasic.
 From Verif Require Import Base.Bytes Base.Val.
 From Verif Require Cobs.Model.
+From Verif Require Rule.Model.
 From Verif Require Store.Model Store.Check.
 
 (* area id -> checker *)
@@ -13,6 +14,7 @@ Definition dispatch (area : N) (v : val) : N :=
   | 3%N => Store.Check.check_c03 v
   | 5%N => Store.Check.check_c05 v
   | 6%N => Store.Check.check_c06 v
+  | 13%N => Rule.Model.check_val v
   | 16%N => Cobs.Model.check_val v
   | _ => 98%N
   end.
